@@ -38,7 +38,20 @@ func runC02(ctx *Ctx) {
 			}
 			ctx.MergeLabels(cfg.Labels)
 			ctx.MergeExcluded(cfg.Excluded)
-			return &Case{Type: string(t.Name), Bytes: hexs(b)}
+			c := &Case{Type: string(t.Name), Bytes: hexs(b)}
+			if rapid.IntRange(0, 3).Draw(rt, "reuse") == 0 {
+				// the same Go object is marshalled, changed to a second value, marshalled again
+				cfg2 := ctx.streamCfg(rapid.Bool().Draw(rt, "unknown2"), true)
+				b2 := cfg2.GenStream(rt, t.Desc, 0)
+				if _, err := decodeD(t, b2); err == nil {
+					c.Sub = "reuse"
+					if b2 == nil {
+						b2 = []byte{}
+					}
+					c.Bytes2 = hexs(b2)
+				}
+			}
+			return c
 		}, func(c *Case) error { return checkC02(ctx, c) })
 	}
 }
@@ -84,6 +97,37 @@ func checkC02(ctx *Ctx, c *Case) error {
 	}
 	if ib, err := implDet(p); err == nil && !bytes.Equal(ib, db) {
 		ctx.Label("references disagree: protoimpl codec vs dynamicpb (not asserted)")
+	}
+	if c.Sub == "reuse" {
+		// object reuse: sizes, marshals, then the same struct is given another
+		// value through protobuf-go's own reflection and marshalled again;
+		// nothing remembered from the first value may leak into the second
+		d2, err := decodeD(t, unhex(c.Bytes2))
+		if err != nil {
+			return nil
+		}
+		_ = proto.Size(p)
+		if _, err := proto.Marshal(p); err != nil {
+			return fmt.Errorf("Marshal failed: %v", err)
+		}
+		wipe(p.ProtoReflect(), 0)
+		model.CopyInto(p.ProtoReflect(), d2.ProtoReflect(), model.Impl)
+		want2, _ := det.Marshal(d2)
+		got2, err := det.Marshal(p)
+		if err != nil {
+			return fmt.Errorf("second Marshal of a reused object failed: %v", err)
+		}
+		if !bytes.Equal(got2, want2) {
+			return fmt.Errorf("a message object marshalled, changed and marshalled again does not encode its new value: %s", diffStr(hexs(got2), hexs(want2)))
+		}
+		if sz := proto.Size(p); sz != len(want2) {
+			return fmt.Errorf("Size of a reused object = %d, its encoding has %d bytes", sz, len(want2))
+		}
+		nd, err := proto.Marshal(p)
+		if err != nil || len(nd) != len(want2) {
+			return fmt.Errorf("non-deterministic Marshal of a reused object: %d bytes, want %d (err=%v)", len(nd), len(want2), err)
+		}
+		ctx.Label("sub=reuse")
 	}
 	recs, _ := model.SplitRecords(pb)
 	if len(recs) >= 2 {
